@@ -1,5 +1,6 @@
 use crate::codec::*;
 use glass_easel_template_compiler as tc;
+use glass_easel_stylesheet_compiler as sc;
 
 pub fn dispatch(fs: &[String]) -> String {
     let op = fs.get(0).map(|s| s.as_str()).unwrap_or("");
@@ -63,6 +64,7 @@ pub fn dispatch(fs: &[String]) -> String {
         "css" => crate::cssops::css(a(1), a(2)),
         "css_septable" => crate::cssops::septable(),
         "group" => group(a(1)),
+        "total" => total(a(1), a(2), a(3), a(4) == "1"),
         _ => "bad-op".to_string(),
     }
 }
@@ -177,6 +179,74 @@ pub fn group(req: &str) -> String {
     out.to_string()
 }
 
+
+/// `total` op (C01): everything the compilers do with one text, timed per stage.
+/// fields: template path, source text, stylesheet options (JSON), dev flag.
+/// answer: `ok` then `key=value` pairs: warnings, output bytes, microseconds per stage, peak RSS in KiB.
+pub fn total(path: &str, src: &str, css_opts: &str, dev: bool) -> String {
+    use std::time::Instant;
+    let t0 = Instant::now();
+    let mut g = if dev { tc::TmplGroup::new_dev() } else { tc::TmplGroup::new() };
+    let nw = g.add_tmpl(path, src).len();
+    let t1 = Instant::now();
+    let mut bytes = 0usize;
+    let mut errs = 0usize;
+    let mut count = |r: Result<String, tc::TmplError>| match r {
+        Ok(s) => bytes += s.len(),
+        Err(_) => errs += 1,
+    };
+    count(g.get_tmpl_gen_object(path));
+    count(g.get_tmpl_gen_object_groups());
+    count(g.get_wx_gen_object_groups());
+    count(g.export_globals());
+    count(g.export_all_scripts());
+    bytes += g.get_runtime_string().len();
+    let t2 = Instant::now();
+    let mut sbytes = 0usize;
+    if let Some(s) = g.stringify_tmpl(path) {
+        sbytes += s.len();
+        // the printed text goes through the parser once more (C14's round trip is also total)
+        let mut g2 = tc::TmplGroup::new();
+        g2.add_tmpl(path, &s);
+        if let Some(s2) = g2.stringify_tmpl(path) {
+            sbytes += s2.len();
+        }
+    }
+    let t3 = Instant::now();
+    let opts = crate::cssops::parse_options(css_opts);
+    let trans = sc::StyleSheetTransformer::from_css(path, src, opts);
+    let cw = trans.warnings().count();
+    let (n, l) = trans.output_and_low_priority_output();
+    let mut nb = Vec::new();
+    n.write(&mut nb).unwrap();
+    let mut lb = Vec::new();
+    l.write(&mut lb).unwrap();
+    let mut sm = Vec::new();
+    n.extract_source_map().to_writer(&mut sm).ok();
+    let t4 = Instant::now();
+    let rss = std::fs::read_to_string("/proc/self/status")
+        .ok()
+        .and_then(|s| {
+            s.lines()
+                .find(|l| l.starts_with("VmHWM:"))
+                .and_then(|l| l.split_whitespace().nth(1).map(|x| x.to_string()))
+        })
+        .unwrap_or_else(|| "0".to_string());
+    format!(
+        "ok warnings={} errs={} gen_bytes={} str_bytes={} css_warnings={} css_bytes={} us_parse={} us_gen={} us_str={} us_css={} rss_kib={}",
+        nw,
+        errs,
+        bytes,
+        sbytes,
+        cw,
+        nb.len() + lb.len() + sm.len(),
+        (t1 - t0).as_micros(),
+        (t2 - t1).as_micros(),
+        (t3 - t2).as_micros(),
+        (t4 - t3).as_micros(),
+        rss
+    )
+}
 
 fn warns_compact(ws: &[tc::parse::ParseError]) -> String {
     let mut o = String::from("[");
